@@ -6,6 +6,7 @@ import TantivyModel.Proofs.AggExtStats
 import TantivyModel.Proofs.AggSpecPV
 import TantivyModel.Proofs.AggRange
 import TantivyModel.Proofs.AggCompTrim
+import TantivyModel.Proofs.AggKeyOrder
 /-!
 # C14 — Aggregations equal a direct computation and do not depend on partitioning
 
@@ -237,6 +238,21 @@ theorem C14_single_segment_cut_exact {V : Type} (p : TermsP) (t : TermsI V) (hsz
     (sortBuckets p.order (termsCut p t).map.entries).take p.size
       = (sortBuckets p.order t.map.entries).take p.size :=
   termsCut_shown_eq p t hsz
+
+/-- **Terms ordered by `_key` ascending are exact under segment truncation.**  No guard on the
+number of distinct terms: every segment cuts to its first `segment_size` keys, and for every
+partition into any number of segments the returned buckets (keys, doc counts, sub-results) are
+those of the direct per-value computation.  Checked hypotheses: `size ≤ segment_size` (always true
+for `TermsP.ofRequest`, `C14_segment_size_ge_size`), `min_doc_count ≤ 1` (the cut happens before
+the `min_doc_count` filter), no terms node below (`cutFree`). -/
+theorem C14_terms_key_asc_exact_under_truncation (p : TermsP) (sub : Req) (ho : p.order = .keyAsc)
+    (hsz : p.size ≤ p.segSize) (hmdc : p.minDocCount ≤ 1) (hsub : sub.cutFree = true) (parts : List (List Doc)) :
+    (finalize (M := M) (.terms p sub) (mergeFruits (.terms p sub) (parts.map (collectSeg (.terms p sub))))).1
+      = (evalAggPV M (.terms p sub) parts.flatten).1 := by
+  rw [C14_mergeFruits_eq_fold]
+  have h := terms_keyAsc_exact (M := M) p sub ho hsz hmdc (harvest_of_cutFree sub hsub) parts
+  unfold mergedTerms at h
+  rw [h, finalize_collect_pv]
 
 /-- the same bounds for EVERY merge schedule (any order, any grouping) of the truncated segment
 fruits, not only for the collector's own fold -/
@@ -588,6 +604,11 @@ example : finalize (M := Int) (.composite [⟨0, 9, false⟩] 1 Option.none .non
     (([[[(0, [3, 2])]], [[(0, [5, 4])]], [[(0, [0])]]].map
         (collectSegComposite (M := Int) [⟨0, 9, false⟩] 1 Option.none .none)).foldl
       (compMergeFruits (entryMerge (merge (M := Int) .none)) 1 Option.none) KMap.empty) = [(0, 1, ())] := by decide +kernel
+/-- two segments, each cut to one key (segment_size 1): keys {1,3} and {1,2}; the first bucket is exact -/
+example : (finalize (M := Int) (.terms ⟨0, Option.none, 1, 1, 1, .keyAsc⟩ .none)
+    (mergeFruits (.terms ⟨0, Option.none, 1, 1, 1, .keyAsc⟩ .none)
+      ([[[(0, [3])], [(0, [1])]], [[(0, [2])], [(0, [1])]]].map
+        (collectSeg (M := Int) (.terms ⟨0, Option.none, 1, 1, 1, .keyAsc⟩ .none))))).1 = [(1, 2, ())] := by decide +kernel
 example : [0, 10, 20].Pairwise (fun a b : Int => a < b) := by decide
 example : ([1, 2, 3] : List Int).Nodup ∧ ∀ d ∈ exTDocs, ∀ k ∈ termKeys ⟨0, Option.none, 2, 2, 1, .countDesc⟩ d, k ∈ [1, 2, 3] := by
   decide
